@@ -463,8 +463,10 @@ func c17Schedules(rep *report.Report, bound int, thorough bool) {
 		name     string
 		snapshot bool
 		rootUser bool
+		snapInTx bool // a read transaction that, after other threads had a chance to commit, snapshots what IT sees
 	}
-	variants := []variant{{"restore||reader||writer", false, false}, {"restore||reader||writer||Snapshot()", true, false}, {"restore||reader||writer||RootBucket-in-Update", false, true}}
+	variants := []variant{{"restore||reader||writer", false, false, false}, {"restore||reader||writer||Snapshot()", true, false, false}, {"restore||reader||writer||RootBucket-in-Update", false, true, false},
+		{"restore||reader||writer||View{SnapshotInTx}", false, false, true}}
 	for _, v := range variants {
 		v := v
 		var cur struct {
@@ -475,7 +477,7 @@ func c17Schedules(rep *report.Report, bound int, thorough bool) {
 			begin     [4]string // what each transaction saw when it began (state key for pruning)
 		}
 		vbound := bound
-		if !thorough && (v.snapshot || v.rootUser) {
+		if !thorough && (v.snapshot || v.rootUser || v.snapInTx) {
 			vbound = 1 // quick: the four-thread variants at one preemption (enough for the recursive read-lock deadlock)
 		}
 		rep.Set("preemption_bound["+v.name+"]", vbound)
@@ -520,6 +522,19 @@ func c17Schedules(rep *report.Report, bound int, thorough bool) {
 					vsync.Go0(func() {
 						if _, _, err := db.Snapshot(dir + "/concurrent-snap.db"); err != nil {
 							cur.errs = append(cur.errs, "snapshot: "+err.Error())
+						}
+					})
+				}
+				if v.snapInTx {
+					_ = os.Remove(dir + "/intx-snap.db")
+					vsync.Go0(func() {
+						if err := db.View(func(tx *bbolt.Tx) error {
+							cur.begin[3] = w.readTuple(tx, noYield)
+							vsync.Yield("snapshotter:in-tx")
+							_, _, err := db.SnapshotInTx(tx, dir+"/intx-snap.db")
+							return err
+						}); err != nil {
+							cur.errs = append(cur.errs, "SnapshotInTx: "+err.Error())
 						}
 					})
 				}
@@ -582,6 +597,32 @@ func c17Schedules(rep *report.Report, bound int, thorough bool) {
 				rep.Outcome("final=restored+writer")
 			default:
 				rep.Violation("C17|final-state|"+v.name, v.name+": final database is neither the restored image nor restored+writer:\n"+dump.Diff(final, refs[3].image), replay)
+			}
+			if v.snapInTx {
+				// the snapshot must hold exactly the state the snapshotting transaction saw when it began
+				var want *dump.Tree
+				wantName := ""
+				for _, r := range refs {
+					if r.tuple == cur.begin[3] {
+						want, wantName = r.image, r.name
+					}
+				}
+				sdb, err := bbolt.Open(dir+"/intx-snap.db", 0o600, &bbolt.Options{ReadOnly: true})
+				switch {
+				case want == nil:
+					rep.Violation("C17|snapshot-in-tx|saw-a-mixture", fmt.Sprintf("%s: the snapshotting transaction began on %q, which is no committed state", v.name, cur.begin[3]), replay)
+				case err != nil:
+					rep.Violation("C17|snapshot-in-tx|unreadable", v.name+": the snapshot written by SnapshotInTx cannot be opened: "+err.Error(), replay)
+				default:
+					if got := stripMeta(dump.DB(sdb)); !got.Equal(want) {
+						rep.Violation("C17|snapshot-in-tx|content", fmt.Sprintf("%s: the transaction began on the %s database but the snapshot it wrote holds something else:\n%s", v.name, wantName, dump.Diff(want, got)), replay)
+					} else {
+						rep.Outcome("snapshot-in-tx=" + wantName)
+					}
+				}
+				if sdb != nil {
+					_ = sdb.Close()
+				}
 			}
 			if cur.listeners != 1 {
 				rep.Violation("C17|restore-listener-count|"+v.name, fmt.Sprintf("%s: restore listener ran %d times", v.name, cur.listeners), replay)
